@@ -39,6 +39,12 @@ func Generate(r *lib.Rng, tier string) *Case {
 	g.lists()
 	g.c.Twice = r.Chance(1, 4)
 	g.c.NoStore = g.c.NoID && r.Chance(1, 2)
+	atomise(g.c)
+	// decided from Case.Seed, no extra draw (the other fields are what they were)
+	g.c.Restart = (g.c.Seed>>8)%3 == 1
+	if (g.c.Seed>>16)%2 == 1 && !g.c.NoID {
+		g.c.Retry = 1 + int((g.c.Seed>>24)%4)
+	}
 	return g.c
 }
 
@@ -107,6 +113,53 @@ func (g *genCtx) lists() {
 	l.After = dress(l.After)
 	c.Lists = l
 	c.Normalise()
+}
+
+// atomise turns some workflow lambdas with a single data predecessor into atom nodes (input type string, fed unmapped
+// by a leaf node): values that are not maps then sit in channels, pending inputs and rerun placeholders. Decided from
+// Case.Seed and the node id (no draw): a third of the eligible nodes; half of those in a graph get a rerun table.
+func atomise(c *Case) {
+	for gi := range c.Graphs {
+		g := &c.Graphs[gi]
+		if g.Mode != "wf" {
+			continue
+		}
+		for ni := range g.Nodes {
+			n := &g.Nodes[ni]
+			if n.Sub != 0 || n.Leaf || n.InKey != 0 || n.Atom {
+				continue
+			}
+			src, nd := -1, 0
+			for _, e := range g.Edges {
+				if e.To == n.ID && e.Kind != 1 {
+					nd++
+					src = e.From
+				}
+			}
+			if nd != 1 || src == StartID {
+				continue
+			}
+			p := g.node(src)
+			if p == nil || p.Sub != 0 || p.Atom {
+				continue
+			}
+			branch := false
+			for _, b := range g.Branches {
+				branch = branch || b.From == p.ID
+			}
+			if branch {
+				continue
+			}
+			h := (c.Seed ^ uint64(n.ID)*0x9e3779b97f4a7c15) >> 20
+			if h%3 != 0 {
+				continue
+			}
+			p.Leaf, n.Atom = true, true
+			if g.State && len(n.Rerun) == 0 && (h>>8)%2 == 0 {
+				n.St, n.Rerun = true, []int{1}
+			}
+		}
+	}
 }
 
 func (g *genCtx) pickMode(parent string) string {
